@@ -1028,6 +1028,7 @@ func Run(c *hx.Ctx) {
 		}
 	})
 	section("forms", func() { formFanout(c) })
+	section("odt-columns", func() { odtColumnFaults(c) })
 	section("fonts", func() { fontFaults(c) })
 	section("pdf-graphs", func() { pdfGraphs(c) })
 	section("geometry", func() { geometryFaults(c) })
